@@ -367,3 +367,17 @@ def path_stale_check(segs, closed, seed, queries):
             return "after changing the path in place (%s) %s answers %r; a fresh path with the same segments %r answers %r (stale state)" % (
                 route, name, a, now, b)
     return None
+
+
+def repeat_check(pts, queries):
+    """an answer does not depend on which queries were put before it: every query is first put to a fresh segment of its own; then all
+    of them, in order and twice over, to ONE segment — the answers must be the same (a remembered list handed out and then modified by
+    another method of the library would show here)"""
+    fresh = [_val(fn, mkseg(pts)) for _, fn in queries]
+    seg = mkseg(pts)
+    for rnd in (1, 2):
+        for (name, fn), want in zip(queries, fresh):
+            got = _val(fn, seg)
+            if got != want and not (got != got and want != want):
+                return "%s answers %r after other queries were put to the same segment (round %d), but %r on a fresh segment" % (name, got, rnd, want)
+    return None
